@@ -50,37 +50,53 @@ theorem marshalCase_spec (binary : Bool) (c : Case) (hk : k1Shape c (marshalResu
     · simp [ha]
   · simp [hb]
 
-theorem unmarshalCase_spec (c : Case) (hk : k1Shape c (unmarshalResult c.ubeh).2 = false ∨ hooksPass c = false) :
-    unmarshalCase c = !satisfiedU c := by
+/-- the model hands the helper's `New` the case's value and the unmarshaler works on its result -/
+theorem unmarshalResult_received (hb : Option HelperBeh) (c : Case) :
+    unmarshalResult (helperNew hb c.value) c.ubeh = (received hb c, unmarshalErr c.ubeh) := by
+  unfold unmarshalResult received freshValue helperNew
+  cases unmarshalStored c.ubeh <;> cases hb <;> rfl
+
+theorem helperAssertEqual_spec (hb : Option HelperBeh) (e a : Int) :
+    helperAssertEqual hb e a = !valueAccepted hb e a := by
+  cases hb <;> simp [helperAssertEqual, valueAccepted, bne]
+
+theorem helperAssertEmpty_spec (hb : Option HelperBeh) (v : Int) :
+    helperAssertEmpty hb v = !emptyAccepted hb v := by
+  cases hb <;> simp [helperAssertEmpty, emptyAccepted, bne]
+
+theorem unmarshalCase_spec (hb : Option HelperBeh) (c : Case)
+    (hk : k1Shape c (unmarshalErr c.ubeh) = false ∨ hooksPass c = false) :
+    unmarshalCase hb c = !satisfiedU hb c := by
   unfold unmarshalCase satisfiedU hooksPass
-  cases hb : hookFails c.before
+  rw [unmarshalResult_received]
+  cases hb' : hookFails c.before
   · cases ha : hookFails c.after
     · simp only [Bool.false_eq_true, if_false, Bool.not_false, Bool.and_self, Bool.true_and]
-      generalize hr : unmarshalResult c.ubeh = r at hk ⊢
-      obtain ⟨v, err⟩ := r
-      simp only
+      generalize unmarshalErr c.ubeh = err at hk ⊢
+      generalize received hb c = v
+      simp only [helperAssertEqual_spec, helperAssertEmpty_spec]
       cases hp : c.pred with
-      | none => cases err <;> simp [ErrV.isNil, bne]
+      | none => cases err <;> simp [ErrV.isNil]
       | any | eq _ | pre _ | suf _ =>
         have := applyPred_spec c.pred err (by rw [hp]; simp) (by rw [hp]; simp)
         rw [hp] at this
         obtain ⟨h1, h2⟩ := this
         simp only [h2]
         rw [h1]
-        cases hx : (!err.isNil && predHolds _ err) <;> simp_all [bne]
+        cases hx : (!err.isNil && predHolds _ err) <;> simp_all
       | re cc mm =>
         have hk' : ¬ (Pred.re cc mm = .re true false ∧ err.isNil = false) := by
           intro ⟨h1, h2⟩
           simp only [Pred.re.injEq] at h1
           rcases hk with hk | hk
           · simp [k1Shape, hp, h1.1, h1.2, h2] at hk
-          · simp [hooksPass, hb, ha] at hk
+          · simp [hooksPass, hb', ha] at hk
         have := applyPred_spec (.re cc mm) err (by simp) hk'
         obtain ⟨h1, h2⟩ := this
         simp only [h2]
         rw [h1]
-        cases hx : (!err.isNil && predHolds (.re cc mm) err) <;> simp_all [bne]
-    · simp [ha]
-  · simp [hb]
+        cases hx : (!err.isNil && predHolds (.re cc mm) err) <;> simp_all
+    · simp
+  · simp
 
 end U.TestKit
